@@ -104,12 +104,16 @@ def classify_exc(e):
 class Driver:
     """Applies spec actions to a real object and records a trace."""
 
-    def __init__(self, cls, D, uc, seed):
+    def __init__(self, cls, D, uc, seed, variant="direct"):
         import torch
+        from nflows.transforms.base import CompositeTransform
 
         self.torch = torch
         self.cls, self.D, self.uc0, self.seed = cls, D, uc, seed
+        self.variant = variant
         self.m = build(cls, D, uc, seed)
+        # "parent": the user switches modes, loads state and converts dtype on an enclosing container
+        self.box = CompositeTransform([self.m]) if variant == "parent" else None
         self.g = torch.Generator().manual_seed(seed + 1)
         if cls == "OneByOneConvolution":
             self.x0 = torch.randn(2, D, 2, 3, generator=self.g, dtype=torch.float64)
@@ -165,10 +169,20 @@ class Driver:
         ev = {"a": name}
         fail = None
         if name == "Train":
-            m.train()
+            if self.variant == "parent":
+                self.box.train()
+            elif self.variant == "train_arg":
+                m.train(True)
+            else:
+                m.train()
             self.bw_since_fill = False
         elif name == "Eval":
-            m.eval()
+            if self.variant == "parent":
+                self.box.eval()
+            elif self.variant == "train_arg":
+                m.train(False)
+            else:
+                m.eval()
         elif name == "UseCache":
             m.use_cache(bool(args[0]))
             ev["b"] = bool(args[0])
@@ -178,7 +192,10 @@ class Driver:
             self.opt.step()
             self.opt.zero_grad(set_to_none=True)
         elif name == "Load":
-            m.load_state_dict(perturb_state(m, self.g))
+            if self.variant == "parent":
+                self.box.load_state_dict(perturb_state(self.box, self.g))
+            else:
+                m.load_state_dict(perturb_state(m, self.g))
             self.bw_since_fill = False
         elif name == "InplaceEdit":
             with torch.no_grad():
@@ -186,7 +203,8 @@ class Driver:
                     p.add_(0.3 * torch.randn(p.shape, generator=self.g).to(p.dtype))
         elif name == "ToDtype":
             d = str(args[0])
-            m.double() if d == "f64" else m.float()
+            tgt = self.box if self.variant == "parent" else m
+            tgt.double() if d == "f64" else tgt.float()
             self.dt = d
             ev["d"] = d
             self.bw_since_fill = False
@@ -239,6 +257,9 @@ class Driver:
         return ev, fail
 
 
+VARIANTS = ["direct", "train_arg", "parent"]
+
+
 def walk_task(task):
     """Runs in a worker process: one class, one initial state, a list of walks."""
     import torch
@@ -248,7 +269,7 @@ def walk_task(task):
     out = {"traces": [], "fails": [], "steps": 0, "calls": 0, "cls": cls, "label": label, "drift": []}
     for wi, walk in enumerate(walks):
         try:
-            d = Driver(cls, D, uc, seed + wi)
+            d = Driver(cls, D, uc, seed + wi, VARIANTS[(seed + wi) % 3])
         except Exception as e:  # constructor rejected / broken: not this property's business
             out["drift"].append("%s: constructor failed: %r" % (cls, e))
             continue
@@ -258,7 +279,7 @@ def walk_task(task):
             if name == "Call":
                 out["calls"] += 1
             if fail:
-                fail.update(cls=cls, D=D, uc0=uc, seed=seed + wi, history=list(d.history), step=len(d.history))
+                fail.update(cls=cls, D=D, uc0=uc, seed=seed + wi, history=list(d.history), step=len(d.history), variant=d.variant)
                 out["fails"].append(fail)
         out["traces"].append({"uc": uc, "cls": cls, "ev": d.events})
     return out
@@ -316,7 +337,7 @@ def main(run, replay=None):
     )
     if replay:
         c = replay["case"]
-        d = Driver(c["cls"], c["D"], c["uc0"], c["seed"])
+        d = Driver(c["cls"], c["D"], c["uc0"], c["seed"], c.get("variant", "direct"))
         last = None
         for h in c["history"]:
             ev, fail = d.apply(h[0], h[1:])
@@ -400,8 +421,8 @@ def main(run, replay=None):
                 traces_by_shape.setdefault(CLASSES[out["cls"]], []).append(t)
             for f in out["fails"]:
                 attrs = {"cls": f["cls"], "outcome": f["outcome"], "prior_cached_backward": f.get("prior_cached_backward")}
-                case = {k: f[k] for k in ("cls", "D", "uc0", "seed", "history")}
-                run.violation(attrs, "%s after %d steps: %s (%s); last actions %s" % (f["cls"], f["step"], f["outcome"], f["detail"], f["history"][-5:]), case)
+                case = {k: f[k] for k in ("cls", "D", "uc0", "seed", "history", "variant")}
+                run.violation(attrs, "%s (%s mode switching) after %d steps: %s (%s); last actions %s" % (f["cls"], f["variant"], f["step"], f["outcome"], f["detail"], f["history"][-5:]), case)
     for shape, trs in traces_by_shape.items():
         if trs:
             run.sample({"class": trs[0]["cls"], "history_prefix": trs[0]["ev"][:8]})
